@@ -11,7 +11,7 @@ PUSHQ = '_ZN2ff15uMPMC_Ptr_Queue4pushEPv'; POPQ = '_ZN2ff15uMPMC_Ptr_Queue3popEP
 
 def build(ctx):
     shim = ctx.build_ir('c30.cpp', 'cut')
-    return ctx.translate(shim, ROOTS, 'c30.c', stubfiles=['common.stubs'], models=['cxx.c', 'stubs.c', 'ff_alloc.c'])
+    return ctx.translate(shim, ROOTS, 'c30.c', stubfiles=['common.stubs'], models=['stubs.c', 'ff_alloc.c'])
 
 def seq(ctx, name, layer, k, nq, sz, tier, timeout=600):
     lname = ['uMPMC_Ptr_Queue init(%d,%d)' % (nq, sz), 'uSWSR_Ptr_Buffer(%d)' % sz, 'SWSR_Ptr_Buffer(%d)' % sz][layer]
